@@ -295,6 +295,9 @@ func checkC08(a *checkArgs, r *Result) error {
 			if cs.Opsfit == 0 || cs.Opsfit == 93918 {
 				runW2Model(r, dp, cs)
 			}
+			if cs.Opsfit == 0 {
+				runW2Auto(r, dp, cs)
+			}
 		}(cs)
 	}
 	wg.Wait()
